@@ -4,6 +4,7 @@ open Pcore.Lat
 #print axioms C04_dtype_scalar
 #print axioms C04_dtype_struct
 #print axioms C04_ptype
+#print axioms C04_dtype
 #print axioms C04_common_fam
 #print axioms C04_ptype_of_family
 #print axioms C04_generalize_partial
